@@ -7,6 +7,7 @@ import (
 	"github.com/oauth2-proxy/oauth2-proxy/v7/pkg/encryption"
 	"net/http"
 	"net/url"
+	"strings"
 	"time"
 
 	"github.com/oauth2-proxy/oauth2-proxy/v7/pkg/apis/options"
@@ -256,10 +257,12 @@ func (s *vKVMap) VerifyConnection(context.Context) error { return nil }
 // save history: whatever was saved before under the browser's ticket -- another identity, an older
 // or a newer session -- the next request loads what the last save wrote; after sign-out no cookie
 // the browser ever held loads anything
-// verif: unwind=8 strlen=24 also=C11,C12 steps=3000000 ideal
+// verif: unwind=8 strlen=24 also=C11,C12,C13,C19 steps=3000000 ideal
 func vh_C10_manager_history() {
 	kv := &vKVMap{m: map[string][]byte{}}
 	opts := vOpts()
+	// cookie names operators use: the default, with hyphens, with dots
+	opts.Name = []string{"_oauth2_proxy", "my-app-session", "sso.example_1"}[ndChoice("cookie-name", 3)]
 	m := NewManager(kv, opts)
 	now := time.Now().Unix()
 	mk := func(tag string) *sessions.SessionState {
@@ -276,7 +279,8 @@ func vh_C10_manager_history() {
 	set0 := verifSetCookies(rw0.Header())
 	verifAssume(len(set0) == 1)
 	c0 := set0[0]
-	if ndBool("browser-holds-a-pre-v2-ticket-cookie") {
+	// (the old encoding {id}.{secret} cannot carry an id with dots: only for dot-free cookie names)
+	if !strings.Contains(opts.Name, ".") && ndBool("browser-holds-a-pre-v2-ticket-cookie") {
 		// the same ticket in the cookie encoding of old releases: {id}.{secret}
 		t0, derr := decodeTicketFromRequest(vReq(c0), opts)
 		verifAssume(derr == nil && t0 != nil)
